@@ -108,8 +108,16 @@ def match_known(known: list[dict], property_id: str, signature: str):
 # ---------------------------------------------------------------- minimisation
 
 
+def _execute_quiet(engine, plan):
+    if not os.environ.get("MYSTSIM_DEBUG"):
+        devnull = os.open(os.devnull, os.O_WRONLY)
+        os.dup2(devnull, 1)
+        os.dup2(devnull, 2)
+    return engine.execute(plan)
+
+
 def run_plan_in_child(engine, plan, timeout=None):
-    status, val = proc.run_in_child(engine.execute, (plan,), timeout=timeout or engine.run_timeout_s)
+    status, val = proc.run_in_child(_execute_quiet, (engine, plan), timeout=timeout or engine.run_timeout_s)
     if status == "exc":
         raise master.HarnessError(f"engine.execute raised: {val[0]}: {val[1]}\n{val[2]}")
     return val
